@@ -50,6 +50,15 @@ def emit(mems=(0, 1, 2, 3, 4)):
         for trait, fn in (('is_default_constructible', 'c10_default_constructible'), ('is_copy_constructible', 'c10_copy_constructible'),
                           ('is_destructible', 'c10_destructible'), ('is_abstract', 'c10_abstract'), ('is_polymorphic', 'c10_polymorphic')):
             out.append('static_assert(std::%s<%s>::value == %s(%s), "%s %s");' % (trait, name, fn, bits, trait, bits))
+    # one constructor with parameters
+    shapes = {0: '', 1: 'int a', 2: 'int a = 0', 3: 'int a, int b = 0', 4: 'int a = 0, int b = 0'}
+    for shape, params in shapes.items():
+        for vis in (1, 2, 3):
+            name = 'P%d' % n
+            n += 1
+            out.append('class %s {\n  %s: %s(%s);\n  public: int m;\n};' % (name, ACC[vis], name, params))
+            out.append('static_assert(std::is_default_constructible<%s>::value == c10p_default_constructible(%d, %d), "ctor shape %d access %d");' % (name, shape, vis, shape, vis))
+            out.append('static_assert(std::is_copy_constructible<%s>::value == c10p_copy_constructible(%d, %d), "ctor shape copy %d access %d");' % (name, shape, vis, shape, vis))
     # one base class: class B { bits }; class A : public B { [void f();] int m; };
     for dc, dcv, cc, ccv, dt, dtv, pv, mem in lattice((0,), (1, 2, 3, 4, 5)):
         if dt in (4, 5) and dtv == 3:
